@@ -227,6 +227,11 @@ def run(E: Engine, rep: Report, tier: str) -> dict:
         rep.violation("GUARD", f"{f.short}|phase-references-compared-modulo-2pi", f"{f.short} decides whether the targets share a phase reference by counting the distinct floats in `{{... .last_phase for q in targets}}`: references equal modulo 2pi but reached through different shift histories (0.1 + 0.2 vs 0.3; -0.3 + 2pi) differ in the last bit or across the wrap, and the pulse / retarget is refused", E.where(f, l.node))
     if not raw_sets:
         rep.ok("GUARD", "phase-references-compared-modulo-2pi", "no exact-float set comparison of phase references", E.where(add))
+    # every phase assignment records its time: _PhaseTracker.__setitem__ has no early exit (a shift that leaves the wrapped
+    # value unchanged -- 0, 2pi -- is still the atom's latest phase shift, which later pulses must not precede)
+    psi = E.method("pulser.sequence._basis_ref._PhaseTracker", "__setitem__")
+    early = [l for l in S(E, psi).logged("return") if l.cond != sym.TRUE and l.fn == psi.short]
+    rep.check(not early, "FLOW", "_PhaseTracker.__setitem__|every-assignment-recorded", "no conditional return before the (time, phase) entry is stored", f"_PhaseTracker.__setitem__ returns early under `{sh(early[0].cond, 80) if early else ''}`: a phase shift that leaves the value unchanged is not recorded, the atom's last-shift time does not move, and a later 'no-delay' pulse on that atom may start before its latest phase shift", E.where(psi, early[0].node if early else None))
     # Pulse.__init__ modulo
     pin = E.fn("pulser.pulse.Pulse.__init__")
     sets = {}
